@@ -10,10 +10,11 @@ mod srt;
 mod chn;
 mod lm;
 mod ft;
+mod pipe;
 
 pub use rng::Rng;
 
-pub trait Area {
+pub trait Area: Sync {
     /// generate one case (text, one line, no tabs)
     fn gen(&self, rng: &mut Rng, tier: u32) -> String;
     /// run the implementation on a case, return its canonical observation (one line, no tabs)
@@ -29,6 +30,7 @@ fn area(name: &str) -> Box<dyn Area> {
         "lm" => Box::new(lm::Lm),
         "lw" => Box::new(dp::Lw),
         "ft" => Box::new(ft::Ft),
+        "pipe" => Box::new(pipe::Pipe),
         _ => {
             eprintln!("unknown area {}", name);
             std::process::exit(2)
@@ -73,10 +75,25 @@ fn main() {
             let mut out = std::io::BufWriter::new(std::fs::File::create(&args[5]).unwrap());
             let tier: u32 = args.get(6).map(|t| t.parse().unwrap()).unwrap_or(0);
             let mut rng = Rng::new(seed);
-            for _ in 0..n {
-                let c = a.gen(&mut rng, tier);
-                let o = run_case(a.as_ref(), &c);
-                writeln!(out, "{}\t{}", c, o).unwrap();
+            // all cases are generated first (one PRNG stream), then executed by a few worker threads, output in order
+            let cases: Vec<String> = (0..n).map(|_| a.gen(&mut rng, tier)).collect();
+            let jobs: usize = std::env::var("VERIF_JOBS").ok().and_then(|v| v.parse().ok()).unwrap_or(1).max(1);
+            let results: Vec<std::sync::Mutex<Option<String>>> = (0..n).map(|_| std::sync::Mutex::new(None)).collect();
+            let next = std::sync::atomic::AtomicUsize::new(0);
+            std::thread::scope(|sc| {
+                for _ in 0..jobs.min(n.max(1)) {
+                    sc.spawn(|| loop {
+                        let i = next.fetch_add(1, std::sync::atomic::Ordering::SeqCst);
+                        if i >= n {
+                            break;
+                        }
+                        let o = run_case(a.as_ref(), &cases[i]);
+                        *results[i].lock().unwrap() = Some(o);
+                    });
+                }
+            });
+            for (c, r) in cases.iter().zip(results.iter()) {
+                writeln!(out, "{}\t{}", c, r.lock().unwrap().take().unwrap_or_default()).unwrap();
             }
         }
         "run" => {
